@@ -58,7 +58,8 @@ void fpBFH(const json &in, json &out) {
           if constexpr (E1::exactable && E2::exactable) try {  // second pass, full-mantissa coefficients
             const Grid<Rat> gr = mkGrid<Rat>(ja.at("g"));
             const Factors<Rat> fsr(in, gr);
-            const auto ap = perturbedSpline(a, caseKey(in)), bp = perturbedSpline(b, caseKey(in) + 13);
+            const auto ap = perturbedSpline(a, caseKey(in));
+            const auto bp = perturbedSpline(b, caseKey(in) + 13);
             const auto ar = exactTwin(ap, gr);
             const auto br = exactTwin(bp, gr);
             const bspline::integration::BilinearForm fr{E1::template make<Rat>(fsr), E2::template make<Rat>(fsr)};
